@@ -1096,6 +1096,37 @@ func (fx *fnExec) runHook(h Hook, env *SpecEnv, where string) {
 		case "assume":
 			fx.assume(tImp(guard, fx.evalBool(a.E, env)))
 			fx.assumedNotes = append(fx.assumedNotes, fmt.Sprintf("%s: hook %s", fx.name, a.Src))
+		case "apply":
+			call := a.E.(ECall)
+			l := fx.v.cs.Lemmas[call.Fun]
+			if l == nil {
+				panic(vcErr("%s: apply of unknown lemma %q", h.Where, call.Fun))
+			}
+			if len(call.Args) != len(l.Vars) {
+				panic(vcErr("%s: lemma %s takes %d arguments", h.Where, call.Fun, len(l.Vars)))
+			}
+			if l.Mode != "" && l.Mode != fx.mode {
+				panic(vcErr("%s: lemma %s is proved in mode %s, applied in mode %s", h.Where, call.Fun, l.Mode, fx.mode))
+			}
+			if !l.Assumed && fx.v.prop != "" && !hasProp(l.Props, fx.v.prop) {
+				panic(vcErr("%s: lemma %s is not proved under property %s (add it to the lemma's prop line)", h.Where, call.Fun, fx.v.prop))
+			}
+			if l.Assumed {
+				fx.assumedNotes = append(fx.assumedNotes, fmt.Sprintf("%s: instance of the assumed lemma %s", fx.name, call.Fun))
+			}
+			fx.lemmasUsed[call.Fun] = true
+			le := &SpecEnv{fx: fx, cur: env.cur, old: env.old, names: map[string]SV{}, bound: map[string]SV{}, callee: true}
+			for i, qv := range l.Vars {
+				le.names[qv.Name] = fx.evalSpec(call.Args[i], env)
+			}
+			var pre, post []Term
+			for _, c := range l.Requires {
+				pre = append(pre, fx.evalBool(c.E, le))
+			}
+			for _, c := range l.Ensures {
+				post = append(post, fx.evalBool(c.E, le))
+			}
+			fx.assume(tImp(tAnd(guard, tAnd(pre...)), tAnd(post...)))
 		}
 	}
 }
